@@ -15,6 +15,7 @@ pub mod c15;
 pub mod c17;
 pub mod c18;
 pub mod c19;
+pub mod c20;
 
 pub struct PropDef {
     pub info: PropInfo,
@@ -25,7 +26,7 @@ pub struct PropDef {
 }
 
 pub fn all() -> Vec<PropDef> {
-    vec![c01::def01(), c01::def03(), c01::def04(), c02::def02(), c02::def11(), c05::def05(), c05::def12(), c06::def(), c07::def(), c08::def(), c09::def(), c10::def(), c13::def(), c14::def(), c15::def(), c15::def16(), c17::def(), c18::def(), c19::def()]
+    vec![c01::def01(), c01::def03(), c01::def04(), c02::def02(), c02::def11(), c05::def05(), c05::def12(), c06::def(), c07::def(), c08::def(), c09::def(), c10::def(), c13::def(), c14::def(), c15::def(), c15::def16(), c17::def(), c18::def(), c19::def(), c20::def()]
 }
 
 pub fn find(id: &str) -> Option<PropDef> {
